@@ -27,7 +27,7 @@ ASSUMPTIONS = [
     "instants within 0.1 s of a deadline (responses, connection changes) are not judged; after a reset the next deadline may count from any instant between the close and the re-establishment",
     "any delivered console-version message counts as a response, solicited or not",
 ]
-PROBES = ["c08.second_system_in_process", "c08.full_buffer_at_tick", "c08.other_extended_traffic", "c08.blocked_dead_link", "c08.silence_from_start", "c08.silence_after_response", "c08.silence_after_reset", "c08.late_answer", "c08.blackhole", "c08.bare_manager",
+PROBES = ["c08.initialised_after_init_gave_up", "c08.second_system_in_process", "c08.full_buffer_at_tick", "c08.other_extended_traffic", "c08.blocked_dead_link", "c08.silence_from_start", "c08.silence_after_response", "c08.silence_after_reset", "c08.late_answer", "c08.blackhole", "c08.bare_manager",
           "c08.reset_expected", "c08.second_reset_expected", "c08.all_answered", "c08.outage_over_tick"]
 
 
@@ -101,6 +101,16 @@ def generate(rng, index: int, tier: str) -> dict:
                        "op": "user.second_system", "gen": rng.choice([4, 5])})
         end = t_init + (n + 2) * interval + timeout + 10.0
         info = {"bare": False, "interval": interval, "timeout": timeout, "style": style, "second_system": second}
+        if rng.random() < 0.12:
+            # the handshake only completes after init() has given up (console unreachable for the first seconds, or slow to
+            # answer): the client becomes initialised in the background - "once initialised" the monitoring must run
+            if rng.random() < 0.5:
+                knobs["fates"] = [{"kind": "refuse", "latency": 0.0}] * rng.choice([3, 4]) + [{"kind": "accept", "latency": 0.0}]
+            else:
+                tl.append({"at": 0.0, "op": "console.delay", "delay": rng.choice([1.0, 1.5])})
+                tl.append({"at": t_init + 30.0, "op": "console.delay", "delay": 0.0})
+            tl.append({"at": t_init + 40.0, "op": "user.snapshot", "label": "late"})
+            info["late_handshake"] = True
         sc = {"gen": gen, "mode": "api", "installation": inst, "knobs": knobs, "timeline": tl, "end": end, "info": info}
     if blocked:
         first = (t_s if bare else t_init + 0.1)
@@ -172,6 +182,16 @@ def execute(sc: dict) -> dict:
     else:
         init = next((c for c in w.calls if c["op"] == "user.init"), None)
         start = init["t_ret"] if init and init["result"] is True else None
+        if start is None and info.get("late_handshake") and init is not None and init["t_ret"] is not None:
+            # init() returned False, the handshake went on in the background: monitoring is owed from the moment the last
+            # handshake answer reached the client (if the client then calls itself initialised)
+            snap = next((s_ for (_t, lbl, s_) in w.snapshots if lbl == "late"), None)
+            last_kind = "group_status" if sc["gen"] == 4 else "zone_status"
+            lat0 = sc["knobs"].get("latency", 0.0)
+            ans = [x["t"] + lat0 for x in w.console.tx if x["kind"] == last_kind]
+            if snap is not None and snap.get("initialised") is True and ans:
+                start = ans[0]
+                probes["c08.initialised_after_init_gave_up"] = 1
     if start is None:
         return common.result(w, V, nontrivial=False)
     end = sc["end"] - 1.0
